@@ -11,6 +11,25 @@ SPIDEV = "adafruit_bus_device.SPIDevice / digitalio.DigitalInOut: assumed to fra
 NOT_APPLICABLE = {}
 
 PROPERTIES = {
+    "C06": {
+        "level_text": "FrameQueueFrag.enqueue is proved to preserve the reassembly invariant R (the cache is empty or is exactly the first nxt fragments of one sent message; nothing is appended to the queue except the complete original message when its LAST fragment arrives in sequence) for an arbitrary incoming fragment frag(m,k) of an arbitrary sent message -- one inductive step that covers every loss/duplication/reordering/interleaving pattern, with message lengths, contents, senders and ids symbolic and unbounded. The cache is proved empty after completion (no second delivery through a duplicated LAST) and at construction.",
+        "level_note": "A-ID (two distinct in-flight messages to one node differ in (from_node, frame_id)); queue lengths 0..2 in the pre-state of the step (the step only appends); known finding D4a excluded by its `when` predicate; re-transmission of a whole message (FIRST..LAST again) after the application read it is delivered again by design of the protocol and is outside the claim.",
+        "modules": ["spec.c06"],
+        "level": "proof",
+        "trusted_base": [ENGINE, "A-ID", "C11 reference codecs stand in for pack/unpack (proved under C11)"],
+        "assumptions": ["A-ID: (from_node, frame_id) identifies an in-flight message to this node", A_SEP,
+                        "received fragment frames are genuine fragments frag(m,k) of sent messages (the property's hypothesis); adversarial frames are C15's subject",
+                        "whole-message retransmission after a dequeue is outside the at-most-once claim"],
+    },
+    "C12": {
+        "level_text": "enqueue/dequeue/peek/len, the move constructors and the fragmentation toggle are proved against the abstract view (tuple of (from,to,id,type,reserved,bytes)) for the WHOLE view, including the private-copy (no alias) obligation and the NoDup/capacity invariant; header fields, message lengths/contents and max_queue_size are symbolic.",
+        "level_note": "Queue length is covered by case split 0..7 (stated bound; default capacity 6) -- bounded in that one dimension; C11 reference codecs stand in for pack/unpack.",
+        "modules": ["spec.c12", "spec.c11"],
+        "level": "proof",
+        "trusted_base": [ENGINE, "queue pre-state lengths 0..7 only (bounded dimension)", "C11 reference codecs stand in for pack/unpack (proved under C11)"],
+        "assumptions": [A_SEP, "frames carry wire-range header fields (12-bit addresses, 16-bit id, byte type/reserved) -- true of every frame after validation or construction through RF24NetworkHeader()",
+                        "queue length in the pre-state <= 7"],
+    },
     "C04": {
         "level_text": "_begin's address-derived fields, _logi_2_phys, _pipe_address and _lvl_2_addr are proved equal to digit-wise reference functions for every valid address (and symbolic prefix/suffix bytes); reachability in <= 8 hops along parent/child hops, the up-then-down shape, pipe-address injectivity over the whole (node, pipe) space, the pipes-1..5 byte sharing and the level-address lemmas are then proved as SMT validities over those reference functions for all 781x780 pairs and all pairwise-distinct prefix/suffix bytes at once (7 hops are shown insufficient as a vacuity guard).",
         "level_note": "Assumes only the engine and (for _begin) the C03/C08 reference functions of the RF24 calls it makes (proved under C03/C08); address space finite and covered symbolically in full.",
